@@ -3,6 +3,7 @@ the spec's hash seed), a reference store, and a small on-demand runner for minim
 
 Threads here only move JSON between the orchestrator and zygote processes; no verdict depends on
 their scheduling (a run's record is a function of its spec and the tree)."""
+import json
 import math
 import os
 import queue
@@ -156,13 +157,48 @@ class RefStore:
     """ref(request) = what compiling exactly that request gives first thing in a pristine process at
     hash seed 0 with a fault-free helper.  Cached by request digest for the life of the orchestrator."""
 
-    def __init__(self, farm, oneshot):
+    def __init__(self, farm, oneshot, disk=None):
         self.farm = farm
         self.oneshot = oneshot
         self.cache = {}
         self.specs = {}
         self.computed = 0
+        self.from_disk = 0
         self.errors = []
+        # optional on-disk memo, one file per (repository tree digest, harness digest): a reference is a function of
+        # the request, the tree and the harness only, so a second run on the same tree need not fork for it again
+        self.disk_path = disk
+        self.disk = {}
+        self.disk_new = {}
+        if disk and os.path.exists(disk):
+            try:
+                with open(disk) as f:
+                    self.disk = json.load(f)
+            except (OSError, ValueError):
+                self.disk = {}
+
+    def _from_disk(self, k, s):
+        v = self.disk.get(k)
+        if v is None:
+            return False
+        self.cache[k] = v
+        self.specs[k] = s
+        self.from_disk += 1
+        return True
+
+    def save(self):
+        if not self.disk_path or not self.disk_new:
+            return
+        try:
+            os.makedirs(os.path.dirname(self.disk_path), exist_ok=True)
+            merged = dict(self.disk)
+            merged.update(self.disk_new)
+            tmp = self.disk_path + ".%d.tmp" % os.getpid()
+            with open(tmp, "w") as f:
+                json.dump(merged, f)
+            os.replace(tmp, self.disk_path)
+        except OSError:
+            pass
 
     @staticmethod
     def _extract(spec, res):
@@ -177,7 +213,7 @@ class RefStore:
 
     def ensure(self, wanted):
         """wanted: dict key -> ref spec; computes the missing ones in parallel"""
-        missing = [(k, s) for k, s in wanted.items() if k not in self.cache]
+        missing = [(k, s) for k, s in wanted.items() if k not in self.cache and not self._from_disk(k, s)]
         if not missing:
             return
         results = self.farm.run_all([s for _, s in missing])
@@ -185,10 +221,14 @@ class RefStore:
             self.cache[k] = self._extract(s, r)
             self.specs[k] = s
             self.computed += 1
+            if "__ref_error__" not in self.cache[k]:
+                self.disk_new[k] = self.cache[k]
 
     def get(self, key, spec):
-        if key not in self.cache:
+        if key not in self.cache and not self._from_disk(key, spec):
             self.cache[key] = self._extract(spec, self.oneshot.run(spec))
             self.specs[key] = spec
             self.computed += 1
+            if "__ref_error__" not in self.cache[key]:
+                self.disk_new[key] = self.cache[key]
         return self.cache[key]
